@@ -30,7 +30,7 @@ def generate(c, registry=REGISTRY):
         if c.options.get("harness_src"):
             fn = ast.parse(c.options["harness_src"]).body[0]
         else:
-            fn = find_function(c.file, c.name)
+            fn = find_function(c.file, c.options.get("function", c.name))
         for ci, case in enumerate(c.cases):
             _generate_case(c, fn, case, ci, registry, rep)
     except ToolLimit as e:
